@@ -31,6 +31,11 @@ var WriterName = []string{"mem-file", "mem-bolt", "big"}
 func Safe(f func() error) (err error) {
 	callEnter()
 	defer callExit()
+	// a fault at a non-nil address inside the call (a read through a memory map
+	// that is gone or too short) becomes a panic of this goroutine instead of
+	// the death of the process: the case is then reported and shrunk like any
+	// other panic
+	defer debug.SetPanicOnFault(debug.SetPanicOnFault(true))
 	defer func() {
 		if r := recover(); r != nil {
 			err = &PanicError{Val: r, Stack: string(debug.Stack())}
